@@ -677,7 +677,7 @@ fn ex_secp256k1(n: &mut Net, out: &mut RunOut) {
 }
 
 macro_rules! ex_schnorr {
-    ($fname:ident, $m:ident, $name:expr, $fm1:expr) => {
+    ($fname:ident, $m:ident, $name:expr, $fm1:expr, $cmul:expr) => {
         fn $fname(n: &mut Net, out: &mut RunOut) {
             use crrl::$m::{Point, PrivateKey, PublicKey, Scalar};
             let ska = PrivateKey::generate(&mut n.rng);
@@ -709,6 +709,24 @@ macro_rules! ex_schnorr {
                 _ => {
                     out.ev(format_args!(" pk refused"));
                     yesno(out, "pk", false);
+                }
+            }
+            // the adversary who picks its key after seeing (c, s): Q = (s/c')*B makes s*B - c'*Q the neutral point
+            if n.t.chance(1, 6) && sig.len() == 48 {
+                let cmul: fn(&[u8]) -> Scalar = $cmul;
+                let cs = cmul(&sig[..16]);
+                if let Some(sv) = Scalar::decode(&sig[16..]) {
+                    if cs.iszero() == 0 && sv.iszero() == 0 {
+                        let q = Point::mulgen(&(sv / cs));
+                        if q.isneutral() == 0 {
+                            out.probe("probe.exchange.schnorr_key_crafted_for_neutral_commitment");
+                            let qe = q.encode().to_vec();
+                            if let Some(Some(pkx)) = g!(out, concat!("call.", $name, ".PublicKey_decode"), hex(&qe), PublicKey::decode(&qe)) {
+                                let v = g!(out, concat!("call.", $name, ".verify"), format!("{} {}", hex(&sig), hex_abbrev(&data2)), pkx.verify(&sig, hn, &data2));
+                                out.ev(format_args!(" crafted key {} verify -> {:?}", hex(&qe), v));
+                            }
+                        }
+                    }
                 }
             }
             // key agreement both ways, each with whatever peer key arrives
@@ -749,9 +767,14 @@ macro_rules! ex_schnorr {
     };
 }
 
-ex_schnorr!(ex_jq255e, jq255e, "jq255e", (crrl::field::GF255e::ZERO - crrl::field::GF255e::ONE).encode());
-ex_schnorr!(ex_jq255s, jq255s, "jq255s", (crrl::field::GF255s::ZERO - crrl::field::GF255s::ONE).encode());
-ex_schnorr!(ex_gls254, gls254, "gls254", [0xFFu8; 32]);
+ex_schnorr!(ex_jq255e, jq255e, "jq255e", (crrl::field::GF255e::ZERO - crrl::field::GF255e::ONE).encode(),
+    |c: &[u8]| crrl::jq255e::Scalar::from_u128(u128::from_le_bytes(c.try_into().unwrap())));
+ex_schnorr!(ex_jq255s, jq255s, "jq255s", (crrl::field::GF255s::ZERO - crrl::field::GF255s::ONE).encode(),
+    |c: &[u8]| crrl::jq255s::Scalar::from_u128(u128::from_le_bytes(c.try_into().unwrap())));
+ex_schnorr!(ex_gls254, gls254, "gls254", [0xFFu8; 32], |c: &[u8]| {
+    use crrl::gls254::Scalar;
+    Scalar::from_u64(u64::from_le_bytes(c[..8].try_into().unwrap())) + Scalar::from_u64(u64::from_le_bytes(c[8..16].try_into().unwrap())) * Scalar::MU
+});
 
 fn ex_x25519(n: &mut Net, out: &mut RunOut) {
     use crrl::x25519::{x25519, x25519_base};
